@@ -9,8 +9,8 @@ import signal
 import hgxv
 
 RULE = ("random Hypergraph instances (0-9 nodes from a sparse int or str universe mapped to rank, 0-10 hyperedges of size "
-        "1-5 incl. singletons, explicit isolated nodes, nodes/hyperedges inserted in random order, repeated insertions), "
-        "EVERY node, every filter size in 1..6, order in 0..5 and none (+ size 0 / order 6 as never-matching filters), "
+        "1-5 incl. singletons, explicit isolated nodes, nodes/hyperedges inserted in random order, repeated insertions, 30% of the histories with remove_edge / remove_node(keep_edges) / re-insertion), "
+        "EVERY node (the falsy labels 0 and '' are forced into 60% of the cases), every filter value on its own: none, size in 0..7, order in 0..6 (size 0 and values above the largest hyperedge match nothing), "
         "each through the Hypergraph method and the module-level function; DirectedHypergraph / TemporalHypergraph / "
         "MultiplexHypergraph instances of the same shape for the degree functions; thorough adds ALL 32768 hypergraphs on "
         "4 nodes. A case = one hypergraph (all its nodes and filters), distinct by (class, node order, hyperedge list); "
@@ -24,8 +24,9 @@ TRUSTED = ["Python set/dict/deque/max semantics; the visited *set* of _bfs is co
            "largest_component: any component of maximal size is accepted (tie-breaking is not part of the property)"]
 BUDGET_S = {"quick": 75, "thorough": 1500}
 
-FILTERS = [None] + [("size", k) for k in range(1, 7)] + [("order", k) for k in range(0, 6)]
-EXTRA_FILTERS = [("size", 0), ("order", 6)]
+# every value on its own (each is compared with the definition, not with the equivalent other keyword), including the
+# falsy / boundary ones: order=0, size=1, size=0 (matches nothing), values above the maximal hyperedge size
+FILTERS = [None] + [("size", k) for k in range(0, 8)] + [("order", k) for k in range(0, 7)]
 
 
 class Timeout(BaseException):
@@ -63,11 +64,16 @@ def want_size(f):
 
 def gen_labels(rng, n):
     if rng.random() < 0.3:
-        pool = [chr(97 + i) * rng.randint(1, 2) for i in range(20)] + ["E1", "N0", "Z", "10", "9"]
-        return rng.sample(sorted(set(pool)), n)
-    if rng.random() < 0.2:
-        return rng.sample(range(-5, 40), n)
-    return rng.sample(range(0, 12), n)
+        pool = [chr(97 + i) * rng.randint(1, 2) for i in range(20)] + ["E1", "N0", "Z", "10", "9", "", "0"]
+        labels = rng.sample(sorted(set(pool)), n)
+        falsy = ""
+    elif rng.random() < 0.2:
+        labels, falsy = rng.sample(range(-5, 40), n), 0
+    else:
+        labels, falsy = rng.sample(range(0, 12), n), 0
+    if n and falsy not in labels and rng.random() < 0.6:
+        labels[rng.randrange(n)] = falsy          # the falsy label (0 / '') is a node like any other
+    return labels
 
 
 def gen_edge_sets(rng, labels):
@@ -97,6 +103,31 @@ def gen_h(rng):
         ops.append(["e", list(reversed(rng.choice(edges)))])      # the same hyperedge again
     rng.shuffle(ops)
     ops += [["n", x] for x in labels if rng.random() < 0.2]
+    if rng.random() < 0.3:
+        # a history with removals (and re-insertions): the adjacency lists the degrees are read from have been edited
+        present_e, present_n, out = [], set(), []
+        for op in ops:
+            out.append(op)
+            if op[0] == "n":
+                present_n.add(op[1])
+            else:
+                present_e.append(sorted(op[1]))
+                present_n.update(op[1])
+            r = rng.random()
+            if r < 0.15 and present_e:
+                e = present_e.pop(rng.randrange(len(present_e)))
+                present_e = [q for q in present_e if q != e]
+                out.append(["re", e])
+                if rng.random() < 0.4:
+                    out.append(["e", e])
+                    present_e.append(e)
+            elif r < 0.25 and present_n:
+                x = rng.choice(sorted(present_n, key=repr))
+                keep = rng.random() < 0.5
+                out.append(["rn", x, keep])
+                present_n.discard(x)
+                present_e = [[y for y in q if y != x] for q in present_e] if keep else [q for q in present_e if x not in q]
+        ops = out
     return {"kind": "H", "ops": ops}
 
 
@@ -131,6 +162,12 @@ def build(case):
     for op in case["ops"]:
         if op[0] == "n":
             h.add_node(op[1])
+        elif op[0] == "re":
+            if h.check_edge(tuple(op[1])):
+                h.remove_edge(tuple(op[1]))
+        elif op[0] == "rn":
+            if h.check_node(op[1]):
+                h.remove_node(op[1], keep_edges=op[2])
         elif kind == "H":
             h.add_edge(tuple(op[1]))
         elif kind == "D":
@@ -166,7 +203,7 @@ def c_int(v):
 
 
 def c_bool(v):
-    if v is True or v is False:
+    if v is True or v is False or type(v).__name__ in ("bool_", "bool"):
         return bool(v)
     raise TypeError("not a bool: %r" % (v,))
 
@@ -270,7 +307,8 @@ def parse_model(name, a):
     raise ValueError(name)
 
 
-def check_h(ctx, drv, case, filters=None):
+def check_h(ctx, case, filters=None):
+    """phase 1 (runs under the watchdog): the implementation against the definitions; returns the model dialogue"""
     h = build(case)
     nodes = list(h.get_nodes())
     edges = [tuple(e) for e in h.get_edges()]
@@ -282,7 +320,7 @@ def check_h(ctx, drv, case, filters=None):
     lines = ["load " + hgxv.enc_lists(edges_r) + " " + hgxv.enc_list(nodes_r)]
     expect = [None]
     nontrivial = False
-    filters = filters or (FILTERS + [ctx.rng.choice(EXTRA_FILTERS)])
+    filters = filters or FILTERS
     for f in filters:
         orc, classes, nt = oracle_h(nodes_r, edges_r, f)
         nontrivial = nontrivial or nt
@@ -312,8 +350,19 @@ def check_h(ctx, drv, case, filters=None):
     ctx.case(key, nontrivial, sample=case)
     ctx.count("nodes_total", len(nodes))
     ctx.count("hyperedges_total", len(edges))
-    if drv is None:
-        return
+    if any(op[0] in ("re", "rn") for op in case["ops"]):
+        ctx.count("histories_with_removals")
+    if () in edges:
+        ctx.count("cases_with_empty_hyperedge")
+    if any(len(e) == 1 for e in edges):
+        ctx.count("cases_with_singleton_hyperedge")
+    if any(not any(x in e for e in edges) for x in nodes):
+        ctx.count("cases_with_isolated_node")
+    return lines, expect
+
+
+def compare_h(ctx, drv, case, lines, expect):
+    """phase 2: the same questions to the Lean model"""
     ans = drv.batch(lines)
     if ans[0] != "ok":
         ctx.disagree(case, f"model rejects the load line: {ans[0]}")
@@ -340,7 +389,7 @@ def check_h(ctx, drv, case, filters=None):
 # ------------------------------------------------------------------------------------------
 # degrees of the three other classes
 
-def check_other(ctx, drv, case):
+def check_other(ctx, case):
     from hypergraphx.measures import degree as D
     kind = case["kind"]
     h = build(case)
@@ -368,7 +417,7 @@ def check_other(ctx, drv, case):
     expect = [None]
     key = repr((kind, nodes_r, sorted(zip([tuple(rank[x] for x in m) for m in members], map(repr, keys)))))
     kept = excl = False
-    for f in FILTERS + [ctx.rng.choice(EXTRA_FILTERS)]:
+    for f in FILTERS:
         ws = want_size(f)
         k = kw(f)
         idx = [i for i in range(len(keys)) if ws is None or len(members[i]) == ws]
@@ -412,8 +461,10 @@ def check_other(ctx, drv, case):
             expect.append((name, f, o_m.get(name), o_f[name]))
     ctx.case(key, kept and excl, sample=None)
     ctx.count("cases_" + kind)
-    if drv is None:
-        return
+    return lines, expect
+
+
+def compare_other(ctx, drv, case, lines, expect):
     ans = drv.batch(lines)
     if ans[0] != "ok":
         ctx.disagree(case, f"model rejects the load line: {ans[0]}")
@@ -430,26 +481,39 @@ def check_other(ctx, drv, case):
                              f"model answers {m!r} to {ln!r}, implementation ({api}) gives {got!r}")
 
 
+WATCHDOG_S = 5        # a normal case takes ~10 ms
+
+
 def check_case(ctx, drv, case, filters=None):
     try:
         if case["kind"] == "H":
-            guarded(20, lambda: check_h(ctx, drv, case, filters))
+            lines, expect = guarded(WATCHDOG_S, lambda: check_h(ctx, case, filters))
         else:
-            guarded(20, lambda: check_other(ctx, drv, case))
+            lines, expect = guarded(WATCHDOG_S, lambda: check_other(ctx, case))
     except Timeout:
-        ctx.violation(case, "a degree / connectivity call did not return within 20 s on this input")
+        ctx.violation(case, f"a degree / connectivity call did not return within {WATCHDOG_S} s on this input")
+        ctx.count("watchdog_timeouts")
+        return
+    except (MemoryError, RecursionError) as ex:
+        ctx.violation(case, f"a degree / connectivity call died with {type(ex).__name__} on this input")
+        ctx.count("watchdog_timeouts")
+        return
+    except AssertionError:
+        raise                       # the oracle contradicts itself: tool failure, not a finding
     except Exception as ex:  # noqa: BLE001 - building the container or reading it back failed
-        if isinstance(ex, (AssertionError, RuntimeError)):
-            raise
         ctx.violation(case, f"building / reading the hypergraph raised {type(ex).__name__}: {ex}")
+        return
+    if drv is not None:
+        (compare_h if case["kind"] == "H" else compare_other)(ctx, drv, case, lines, expect)
 
 
-SMALL_FILTERS = [None, ("size", 1), ("size", 2), ("size", 3), ("size", 4), ("order", 0), ("order", 1), ("order", 2),
-                 ("order", 3), ("size", 5)]
+SMALL_FILTERS = [None, ("size", 0), ("size", 1), ("size", 2), ("size", 3), ("size", 4), ("size", 5),
+                 ("order", 0), ("order", 1), ("order", 2), ("order", 3), ("order", 4)]
 
 
-def stop(ctx, reserve=5):
-    return ctx.too_many() or (ctx.time_left() is not None and ctx.time_left() < reserve)
+def stop(ctx, reserve=8):
+    return (ctx.too_many() or ctx.extra.get("watchdog_timeouts", 0) >= 2
+            or (ctx.time_left() is not None and ctx.time_left() < reserve))
 
 
 def run(ctx):
@@ -458,7 +522,7 @@ def run(ctx):
     for case in ({"kind": "H", "ops": [["e", [1, 2]], ["e", [2, 3, 4]], ["e", [4, 5]], ["n", 9], ["e", [7]]]},
                  {"kind": "H", "ops": []}, {"kind": "H", "ops": [["n", "a"]]}):
         check_case(ctx, drv, case)
-    n = ctx.scale(140, 4000)
+    n = ctx.scale(900, 5000)
     for i in range(n):
         if stop(ctx):
             break
